@@ -47,9 +47,10 @@ def check_case(acc, spec, pname, subs, mode, var, tier, cfg=("bc", "first", "min
     base = {"spec": SC.short(spec), "partition": pname, "parts": [s["doms"] for s in subs], "mode": mode, "var": var}
     n_exec = 0
     outcomes = set()
-    for pickling in ("eager", "late"):
+    for pickling in ("eager", "late", "eager+reused"):
         def run_fn(prefix, _p=pickling):
-            return M.run_parent(solvers, mode, var, cache, [], prefix, _p)
+            # "+reused": the same MultiprocessingSolver object has already completed one run
+            return M.run_parent(solvers, mode, var, cache, [], prefix, _p.split("+")[0], reuse=_p.endswith("reused"))
 
         lens = None
         for res in M.explore(run_fn, bound, max_execs):
@@ -161,7 +162,7 @@ def replay(entry):
                 s["doms"] = doms
                 subs.append(s)
             solvers = mpcases.make_solvers(subs)
-            res = M.run_parent(solvers, w["mode"], w["var"], {}, [], w["choices"], w["pickling"])
+            res = M.run_parent(solvers, w["mode"], w["var"], {}, [], w["choices"], w["pickling"].split("+")[0], reuse=w["pickling"].endswith("reused"))
             print("replay:", w["partition"], w["mode"], res.events, "-> yielded", res.yielded, "value", res.value, "hang", res.hang, "error", res.error, res.stats)
             acc = Acc()
             check_case(acc, spec, w["partition"], subs, w["mode"], w["var"], "quick")
